@@ -176,3 +176,8 @@ def run(F, R, tier):
     for im in _ct.handwritten_impls(F, "clone::Clone", ("azure_proxy_agent",)):
         if im["self_ty"].endswith("key_keeper::key::Key"):
             _ct.faithful_clone(F, R, "C10.R2", im)
+
+    # the key cell is read / written through reliable round trips (a full queue delays a signer, it never hands it "no key")
+    for nm in ("get_key", "set_key"):
+        _ct.reliable_round_trip(F, R, "C10.R2", "azure_proxy_agent::shared_state::key_keeper_wrapper::KeyKeeperSharedState::" + nm,
+                                "KeyKeeperSharedState::" + nm)
